@@ -188,6 +188,15 @@ func c10Build(c *fw.Case) c10Case {
 		}
 	case "natural-join":
 		cs.sql = "SELECT * FROM t1 " + gen.Pick(c.R, []string{"NATURAL JOIN", "NATURAL LEFT JOIN", "NATURAL RIGHT JOIN", "NATURAL LEFT OUTER JOIN"}) + " u1" + gen.Pick(c.R, []string{"", " WHERE n1 > 0", " x"})
+		if c.Chance(0.5) {
+			// USING with one, two, three and repeated columns
+			jn := gen.Pick(c.R, []string{"JOIN", "LEFT JOIN", "RIGHT JOIN", "HASH_JOIN", "STRAIGHT_JOIN", "PARALLEL JOIN", "PARALLEL LEFT JOIN"})
+			cols := gen.Pick(c.R, []string{"rid", "rid, n1", "rid, n1, s1", "n1, n1", "nosuch, rid", "rid, n1, s1, b1, n2"})
+			cs.sql = "SELECT * FROM t1 x " + jn + " t1 y USING (" + cols + ")" + gen.Pick(c.R, []string{"", " WHERE x.n1 >= 0", " LIMIT 2"})
+			if c.Chance(0.3) {
+				cs.sql = "SELECT * FROM t1 x " + jn + " u1 y USING (" + gen.Pick(c.R, []string{"un1", "un1, us1", "rid, un1"}) + ")"
+			}
+		}
 	case "union-chain":
 		k := 2 + c.Intn(4)
 		parts := make([]string, k)
